@@ -133,14 +133,17 @@ MARKUP = ["%", "%s", "%d", "100%", "%%", "%(x)s", "{0}", "{}", "{x}", "$", "${x}
           "\\1", "\\g<0>", "\\0", ".*", "(?i)", "[a-z]", "(", ")", "a|b", "\\b", "\\d+", "$1"]
 # characters without a glyph that pasted text carries (zero-width no-break space = U+FEFF away from the start of a file, zero-width
 # space / joiner, left-to-right mark, soft hyphen, word joiner): they are text like any other
+# characters whose lower / upper / casefold forms have ANOTHER LENGTH (U+0130 lowers to two code points, sharp s uppers to SS, the fi
+# ligature casefolds to two letters): text processed on a case-changed copy and sliced from the original comes out shifted
+CASE_LENGTH = ["\u0130", "\u0130stanbul", "\u00df", "\ufb01", "\u0149", "\u01f0"]
 INVISIBLE = ["\ufeff", "\u200b", "\u200d", "\u200e", "\u00ad", "\u2060"]
 # the names of the event kinds themselves, as words of ordinary text ("text on", "texture", "lyrics", "sectional")
 KIND_WORDS = ["text ", "text", "Text ", "texture", "lyrics", "sectional", "E ", " = E ", "event "]
 TEXT_ALPHABET = ["a", "b", "Z", "1", " ", " ", "\"", "=", "[", "]", "{", "}", "\\", "\t", "\u00a0", "\u3000", "\u00e9", "e\u0301", "\u212b",
-                 "\u00df", "\u4e16", "lyric", "section", "lyric ", "section ", "LYRIC ", "Section ", "-", "'", ",", ".", "E"] * 2 + MARKUP + INVISIBLE + KIND_WORDS + MOJIBAKE
+                 "\u00df", "\u4e16", "lyric", "section", "lyric ", "section ", "LYRIC ", "Section ", "-", "'", ",", ".", "E"] * 2 + MARKUP + INVISIBLE + KIND_WORDS + MOJIBAKE + CASE_LENGTH
 VALUE_ALPHABET = ["a", "b", "Q", "7", " ", "\"", "=", ",", "\t", "\u00e9", "\u4e16", "'", "-", ".", "(", ")", "\u00a0",
                   "e\u0301", "\u2126", "\u212b", "\uf900", "\u304b\u3099", "\u1100\u1161", "\ufb01",  # incl. text that is not NFC/NFKC-normalised
-                  "/", "//", " // ", "#", ";", "\\", "%", "{", "}", "[", "]"] * 2 + MARKUP + INVISIBLE + MOJIBAKE
+                  "/", "//", " // ", "#", ";", "\\", "%", "{", "}", "[", "]"] * 2 + MARKUP + INVISIBLE + MOJIBAKE + CASE_LENGTH
 
 
 def gen_word(rng: random.Random) -> str:
@@ -155,7 +158,7 @@ def gen_event_text(rng: random.Random, hostile: bool) -> tuple[str, str, str | N
     r = rng.random()
     if not hostile:
         if r < 0.4:
-            v = rng.choice(["Intro", "Verse 1", "Chorus", "Solo 1", "Bridge", "Outro", "Guitar Solo 2a", "100% Solo", "Solo <b>2</b>",
+            v = rng.choice(["Intro", "Verse 1", "Chorus", "Solo 1", "Bridge", "Outro", "Guitar Solo 2a", "100% Solo", "Solo <b>2</b>", "Gtr_Solo", "__", "verse_1a", "\u0130stanbul",
                             "Verse \u201cA\u201d", "Pre-Chorus - Fast", "Q&A", "say \\\"hi\\\"", "{Bridge}", "Fill #3 (50%)"])
             return "section " + v, "section", v
         if r < 0.8:
@@ -163,7 +166,8 @@ def gen_event_text(rng: random.Random, hostile: bool) -> tuple[str, str, str | N
                             "say \\\"hi\\\"", "rock&roll", "$$$", "{x}", "%s"])
             return "lyric " + v, "lyric", v
         v = rng.choice(["phrase_start", "phrase_end", "music_start", "end", "crowd_clap", "idle", "coda", "end", "music_end", "100%", "%d bars",
-                        "<b>", "a - b", "text on", "text", "texture off", "lyrics on", "sectional", "event x", "key = E minor", "zero\u200bwidth"])
+                        "<b>", "a - b", "text on", "text", "texture off", "lyrics on", "sectional", "event x", "key = E minor", "zero\u200bwidth",
+                        "prc_intro", "prc_verse_1", "prc_gtr_solo_1", "section_a", "lyric_x", "Gtr_Solo"])
         return v, "text", v
     body = "".join(rng.choice(TEXT_ALPHABET) for _ in range(rng.randint(0, 8)))
     if r < 0.3:
@@ -194,7 +198,7 @@ def gen_string_value(rng: random.Random, hostile: bool) -> str:
                            "rock", "cd", "Motörhead", "テスト", "Knights of Cydonia - Live at Wembley", "AC/DC - T.N.T.", "<color=#00FF00>Nick</color>",
                            "<b>power</b> metal", "\u201cHeroes\u201d", "Die \u201eToten Hosen\u201c", "12\u201d Singles", "100% (Remix)", "R&B", "a - b",
                            "Album <size=10>(Special Edition)</size>", "50%s off", "{0} - {1}", "C:\\songs\\x.ogg", "Pasted\ufeff Name", "soft\u00adhyphen",
-                           "Through the Fire {Live}", "Intro {} Outro", "Medley {1/3}", "MotÃ¶rhead", "Donâ€™t Stop"])
+                           "Through the Fire {Live}", "Intro {} Outro", "Medley {1/3}", "MotÃ¶rhead", "Donâ€™t Stop", "\u0130stanbul", "Stra\u00dfe"])
     r = rng.random()
     if r < 0.2:
         f = rng.choice(list(PASCAL.values()))
@@ -719,3 +723,26 @@ def chart_or_interactions(rng: random.Random, i: int, profile: str, rec=None, **
             rec.cls("whole_chart_with_coinciding_features")
         return interaction_chart(rng)
     return gen_chart(rng, profile, **kw)
+
+
+def power_of_two_sustain_chart(rng: random.Random) -> dict:
+    """sustains at and around 2^15 .. 2^27 (7-8 digit lengths are within every stated bound) on every lane, next to ordinary notes with
+    the same low bits: arithmetic that packs lane lengths into fixed-width fields is exact for ordinary lengths and silently not here"""
+    res = rng.choice([192, 480])
+    groups, t = [], 0
+    for k in range(15, 28):
+        for d in (-1, 0, 1):
+            v = 2 ** k + d
+            lane = (k + d) % 5
+            groups.append({"tick": t, "lanes": {str(lane): v}, "open": None, "forced": False, "tap": False})
+            t += res
+            groups.append({"tick": t, "lanes": {str(lane): max(0, d), str((lane + 1) % 5): 0}, "open": None, "forced": False, "tap": False})
+            t += res
+            if d == 0:
+                groups.append({"tick": t, "lanes": {str(lane): 3 * 2 ** (k - 1), str((lane + 2) % 5): 2 ** k}, "open": None, "forced": False, "tap": False})
+                t += res
+    truth = {"resolution": res, "tempos": [[0, usable_n(10**9)]], "timesigs": [[0, 4, None]], "tracks": {"GUITAR/EXPERT": {"groups": groups}}}
+    case = render_truth(truth)
+    case["horizon"] = t + 2 ** 28
+    case["profile"] = "power_of_two_sustains"
+    return case
